@@ -190,6 +190,8 @@ def run(ctx):
     order = [call_name(c) for c in sorted((c for c in walk_own(conv.node) if isinstance(c, ast.Call) and call_name(c) in ("get_xlsform", "workbook_to_json", "create_survey_element_from_dict", "to_xml")), key=lambda c: c.lineno)]
     r3.check(order == ["get_xlsform", "workbook_to_json", "create_survey_element_from_dict", "to_xml"], "convert:pipeline", "read -> JSON (row validation) -> build -> generate (tree validation)", conv.loc(), why_fail=repr(order))
     rules.append(r3)
+    from .c03 import sticky_sentinel
+    sticky_sentinel(ctx, r3, "C17.R3")
     from .c01 import name_validator_rule
     rules.append(name_validator_rule(ctx, "C17", "C17.R5"))
 
